@@ -21,3 +21,10 @@ CONTRACTS += _C12.read_batch_slice + _C12.read_batch_idx + _C12.read_batch
 for _k, _v in _C12.CALLEES.items():
     CALLEES.setdefault(_k + "#c12", _v)
 C12_CALLEES = dict(_C12.CALLEES)
+
+
+def EXTRA():
+    from jvc import effects
+    # call-history independence of the Python plumbing: no module-level cache or other state is written by these modules
+    return [dict(r, name="C05/effects/" + r["name"]) for r in effects.check_module_state(
+        ["thejoker.utils", "thejoker.multiproc_helpers", "thejoker.likelihood_helpers", "thejoker.samples", "thejoker.samples_helpers"])]
